@@ -21,7 +21,7 @@ func (c06) Gen(r *simrt.Rand, idx int, tier string) *Case {
 	g := DefaultGen()
 	g.TieWeights = r.P(0.5)
 	c := &Case{}
-	subs := []string{"balance", "balance-ties", "balance-valued", "print", "checkwrite", "transcode", "weights", "returns", "infer", "import", "price-conflict", "price-paths", "register"}
+	subs := []string{"balance", "balance-ties", "balance-valued", "print", "checkwrite", "transcode", "weights", "returns", "infer", "import", "price-conflict", "price-paths", "register", "weights-ties"}
 	c.Sub = subs[idx%len(subs)]
 	switch c.Sub {
 	case "balance-ties":
@@ -30,6 +30,55 @@ func (c06) Gen(r *simrt.Rand, idx int, tier string) *Case {
 		return genInferCase(r, c, true)
 	case "import":
 		return genImportCase(r, c)
+	}
+	if c.Sub == "weights-ties" {
+		// groups of a universe whose weights are mathematically equal but are
+		// reached by different float sums (members in another order, several dates)
+		start := anchors[r.Intn(len(anchors))]
+		var b, u strings.Builder
+		b.WriteString(fmt.Sprintf("%s open Assets:Depot\n%s open Equity:Equity\n\n", start, start))
+		n := r.Range(3, 5)
+		var parts []Q
+		for i := 0; i < n; i++ {
+			q := Q(r.Range(1, 9999)) * 100
+			if r.P(0.5) {
+				q = Q(r.Range(1, 99)) * 10100
+			}
+			parts = append(parts, q)
+		}
+		groups := r.Range(2, 3)
+		k := 0
+		for g := 0; g < groups; g++ {
+			fmt.Fprintf(&u, "\"Group%c\":\n", 'A'+g)
+			for _, pi := range r.Perm(n) {
+				k++
+				cm := fmt.Sprintf("K%d", k)
+				fmt.Fprintf(&u, "  - \"%s\"\n", cm)
+				fmt.Fprintf(&b, "%s price %s 1 CHF\n", start, cm)
+				fmt.Fprintf(&b, "%s \"buy\"\nEquity:Equity Assets:Depot %s %s\n\n", start+Day(r.Range(0, 3)), parts[pi].String(), cm)
+			}
+		}
+		end := start + Day(r.Range(40, 200))
+		fmt.Fprintf(&b, "%s \"later\"\nEquity:Equity Assets:Depot 1 CHF\n\n", end)
+		c.Files = map[string]string{"/w/t.knut": b.String(), "/w/u.yaml": u.String()}
+		c.Cmd = "portfolio weights"
+		c.Today = "2030-01-01"
+		c.Args = []string{"--color=false", "-v", "CHF", "--universe", "/w/u.yaml", "--to", end.String(), []string{"--months", "--weeks", "--quarters"}[r.Intn(3)], "/w/t.knut"}
+		if r.P(0.4) {
+			c.Args = append([]string{"-m", "1,."}, c.Args...)
+		}
+		if r.P(0.3) {
+			c.Args = append([]string{"--digits", "9"}, c.Args...)
+		}
+		c.Scheds = []Sched{CanonSched()}
+		for i := 1; i < 8; i++ {
+			s := RandSched(r)
+			if s.MapMode == 0 {
+				s.MapMode = 3
+			}
+			c.Scheds = append(c.Scheds, s)
+		}
+		return c
 	}
 	if c.Sub == "price-paths" {
 		// a price graph with alternative derivations (C12's generator): whichever
